@@ -374,6 +374,15 @@ G_FORMS = [
 ]
 
 
+# value vectors aimed at number representation: neighbours of 2^53 as int and float in both orders, int/float/bool of equal value,
+# signed zero, smallest double, a last-bit neighbour, a sum beyond 2^64
+EXPLICIT = [[9007199254740993, 9007199254740992.0, BLANK, BLANK], [9007199254740992.0, 9007199254740993, BLANK, BLANK],
+            [-9007199254740993, -9007199254740992.0, BLANK, BLANK], [-9007199254740992.0, -9007199254740993, BLANK, BLANK],
+            [2 ** 53, 2 ** 53 + 1, 2 ** 53 + 2, BLANK], [1, 1.0, True, BLANK], [True, 1.0, 1, 2], [0, 0.0, False, -0.0], [5e-324, BLANK, BLANK, BLANK],
+            [-1, -1.0, BLANK, BLANK], [3, 3.0000000000000004, BLANK, BLANK], [3.0000000000000004, 3, BLANK, BLANK], [10 ** 20, 1, -1, 10 ** 20],
+            [0.1, 0.2, 0.3, -0.6], [2, 2.5, -2.5, -2], [7, 7, 7, 7], [-0.0, BLANK, BLANK, BLANK], [1e-9, -1e-9, BLANK, BLANK]]
+
+
 def grid_formulas():
     """[(sheet, col letters, row, text, fn, form index)]"""
     out, count = [], {0: 0, 1: 0, 2: 0}
@@ -419,6 +428,7 @@ def _contains(pattern, kinds):
 
 def _grid_worker(task):
     """task: {'vectors': [(sym...)], 'passes': [rng seed or None], 'wid': int}"""
+    cpu0 = time.process_time()
     stats = {c: {'evaluations': 0, 'nontrivial': 0, 'fails': [], 'failing': 0, 'samples': []}
              for c in ('fold', 'countblank', 'andor', 'split', 'sheets')}
     known = {}          # (fn, form or '') -> list of minimal kind lists
@@ -461,10 +471,16 @@ def _grid_worker(task):
             grid_apply(book, vec)
             return vec
 
-        for seed, stride in task['passes']:
-            for vi, sv in enumerate(task['vectors'][::stride]):
-                rng = None if seed is None else random.Random(f'{seed}/{"".join(sv)}')
-                vec = [pick(s, rng) for s in sv]
+        def all_vectors():
+            for vi, ev in enumerate(task.get('explicit', [])):
+                yield vi, ev
+            for seed, stride in task['passes']:
+                for vi, sv in enumerate(task['vectors'][::stride]):
+                    rng = None if seed is None else random.Random(f'{seed}/{"".join(sv)}')
+                    yield vi, [pick(s, rng) for s in sv]
+
+        for _ in [0]:
+            for vi, vec in all_vectors():
                 grid_apply(book, vec)
                 for k, f in enumerate(fl):
                     fn, form = f[4], G_FORMS[f[5]]
@@ -498,16 +514,29 @@ def _grid_worker(task):
                                                 f'{show(mgot)}, expected {show_exp(mexp)}',
                                         'replay': {'kind': 'grid', 'vec': [enc(x) for x in mv], 'fn': fn, 'form': form[0]}})
                     grid_apply(book, vec)
+    stats['cpu'] = time.process_time() - cpu0
     return stats
 
 
-def grid_sweep(tier, seed):
+def grid_sweep(tier, seed, pool):
     vectors = sym_vectors(4)
+    if tier != 'thorough':
+        # quick: every vector with at most 3 non-blank cells, every vector of numbers and booleans, a seeded eighth of the other ones
+        rng = random.Random(seed * 31 + 7)
+        vectors = [v for v in vectors if 'B' in v or all(s in 'IFNYZ' for s in v) or rng.random() < 0.125]
     # (seed of the representatives or None = canonical, stride over the vector list)
-    passes = [(None, 1), (seed * 1000 + 1, 5)] if tier != 'thorough' else [(None, 1)] + [(seed * 1000 + i, 1) for i in range(1, 7)]
-    tasks = [{'vectors': vectors[w::NPROC], 'passes': passes, 'wid': w} for w in range(NPROC)]
-    with Pool(NPROC) as pool:
-        res = pool.map(_grid_worker, tasks)
+    passes = [(None, 1), (seed * 1000 + 1, 8)] if tier != 'thorough' else [(None, 1)] + [(seed * 1000 + i, 1) for i in range(1, 4)]
+    tasks = [{'vectors': vectors[w::2 * NPROC], 'passes': passes, 'wid': w} for w in range(2 * NPROC)]
+    tasks[0]['explicit'] = EXPLICIT
+    t0 = time.time()
+    ar = pool.map_async(_grid_worker, tasks, chunksize=1)
+
+    def finish():
+        return _grid_finish(ar.get(), len(vectors), len(passes), time.time() - t0)
+    return finish
+
+
+def _grid_finish(res, nvec, npass, seconds):
     merged = {}
     for c in ('fold', 'countblank', 'andor', 'split', 'sheets'):
         fails = sorted((f for r in res for f in r[c]['fails']), key=lambda f: (f['size'], f['key'], f['what']))
@@ -516,7 +545,7 @@ def grid_sweep(tier, seed):
         merged[c] = {'evaluations': sum(r[c]['evaluations'] for r in res), 'nontrivial': sum(r[c]['nontrivial'] for r in res),
                      'failing': sum(r[c]['failing'] for r in res), 'fails': dedupe(fails),
                      'samples': [s for r in res[:2] for s in r[c]['samples']][:3]}
-    return merged, len(vectors), len(passes)
+    return merged, nvec, npass, seconds, sum(r['cpu'] for r in res)
 
 
 def replay_grid(payload):
@@ -558,6 +587,7 @@ def _same_items(a, b):
 
 def _helper_worker(task):
     which, vectors = task['which'], task['vectors']
+    cpu0 = time.process_time()
     cls = lib.get_class(which)
     inst = cls()
     empty = cls.EmptyCell()
@@ -598,6 +628,7 @@ def _helper_worker(task):
                 kinds = 'date' if judge(alt, got) else ('+'.join(sorted({kind_of(v) for v in vec})) or 'empty')
                 fail(f'C11.helper.{fn}.{kinds}', f'{which}.{"_count" if fn == "COUNT" else H_FN[fn]} over {[show(v) for v in vec]} -> {show(got)}, '
                      f'expected {show_exp(exp)}', {'kind': 'helper', 'which': which, 'vec': [enc(v) for v in vec]})
+    st['cpu'] = time.process_time() - cpu0
     return st
 
 
@@ -648,7 +679,7 @@ def _helper_long(which, rng, st):
         st['fails'].append({'key': 'C11.helper._flatten_list.deep', 'what': f'{which}: 60-deep nesting -> {show(flat)}', 'replay': None})
 
 
-def helper_check(tier, seed):
+def helper_check(tier, seed, pool):
     t0 = time.time()
     maxlen = 4 if tier == 'thorough' else 3
     vectors = [list(v) for n in range(0, maxlen + 1) for v in itertools.product(H_VALUES, repeat=n)]
@@ -656,13 +687,29 @@ def helper_check(tier, seed):
         rng = random.Random(seed * 7 + 1)
         vectors += [[rng.choice(H_VALUES) for _ in range(4)] for _ in range(3000)]
     tasks = [{'which': w, 'vectors': vectors[i::8]} for w in ('runtime', 'abstract') for i in range(8)]
-    with Pool(NPROC) as pool:
-        res = pool.map(_helper_worker, tasks)
+    ar = pool.map_async(_helper_worker, tasks, chunksize=1)
+    return lambda: _helper_finish(tier, seed, ar.get(), maxlen, t0)
+
+
+def _helper_finish(tier, seed, res, maxlen, t0):
     st = {'evaluations': sum(r['evaluations'] for r in res), 'nontrivial': sum(r['nontrivial'] for r in res),
-          'failing': sum(r['failing'] for r in res), 'fails': [f for r in res for f in r['fails']]}
+          'failing': sum(r['failing'] for r in res), 'fails': [f for r in res for f in r['fails']], 'cpu': sum(r['cpu'] for r in res)}
     for w in ('runtime', 'abstract'):
         _helper_long(w, random.Random(seed * 7 + 2), st)
     st['fails'].sort(key=lambda f: (len((f.get('replay') or {}).get('vec', [0] * 9)), f['key']))
+    kept, patterns = [], []
+    for f in st['fails']:          # one key per root cause: drop a failure whose cells contain an already reported smaller failing vector
+        vec = (f.get('replay') or {}).get('vec')
+        if vec is None or '_flatten_list' in f['key']:
+            kept.append(f)
+            continue
+        group = f['key'].split('.')[3] if f['key'].count('.') >= 3 else f['key']
+        kinds = sorted(kind_of(dec(x)) for x in vec)
+        if any(g == group and _contains(p, kinds) for g, p in patterns):
+            continue
+        patterns.append((group, kinds))
+        kept.append(f)
+    st['fails'] = kept
     return {
         'name': 'C11.monitor.helpers',
         'bound': f'both runtime copies (generated class, AbstractExcelInPython): every cell vector of length 0..{maxlen} over {len(H_VALUES)} '
@@ -674,7 +721,7 @@ def helper_check(tier, seed):
                 '_sum/_average/_min/_max/_count/_count_blank/_and/_or compared with the fold of the statement; AVERAGE/MIN/MAX without a '
                 'numeric cell and AND/OR over cells without truth value have no clause and are not counted',
         'exhaustive': True, 'evaluations': st['evaluations'], 'distinct_nontrivial': st['nontrivial'],
-        'failures': dedupe(st['fails']), 'failing_evaluations': st['failing'], 'seconds': time.time() - t0,
+        'failures': dedupe(st['fails']), 'failing_evaluations': st['failing'], 'seconds': time.time() - t0, 'cpu_seconds': st['cpu'],
         'samples': [{'fn': '_sum', 'cells': ['3', 'EmptyCell', 'True', "'12'", '2.5'], 'expected': '5.5'}],
     }
 
@@ -790,24 +837,29 @@ def planted_book_items(syms):
 
 def _planted_worker(task):
     st = {'evaluations': 0, 'nontrivial': 0, 'fails': [], 'failing': 0, 'samples': [], 'seen': set()}
+    cpu0 = time.process_time()
     with lib.scratch() as d:
         _planted_eval(task['blocks'], task['seed'], d, st)
+    st['cpu'] = time.process_time() - cpu0
     st.pop('seen')
     return st
 
 
-def planted_check(tier, seed):
+def planted_check(tier, seed, pool):
     t0 = time.time()
     blocks = [v for n in (1, 2) for v in sym_vectors(n, P_SYMS)]
     three = sym_vectors(3, P_SYMS)
     if tier != 'thorough':
         rng = random.Random(seed * 13 + 5)
-        three = rng.sample(three, 250)
+        three = rng.sample(three, 150)
         three.sort(key=lambda t: sum(1 for s in t if s != 'B'))
     blocks += three
     tasks = [{'blocks': blocks[i:i + P_BLOCK], 'seed': seed} for i in range(0, len(blocks), P_BLOCK)]
-    with Pool(NPROC) as pool:
-        res = pool.map(_planted_worker, tasks)
+    ar = pool.map_async(_planted_worker, tasks, chunksize=1)
+    return lambda: _planted_finish(tier, ar.get(), len(blocks), t0)
+
+
+def _planted_finish(tier, res, nblocks, t0):
     raw = sorted((f for r in res for f in r['fails']), key=lambda f: (len(f['kinds']), f['kinds'], f['fn'], f['form']))
     accepted, fails = [], []
     for f in raw:
@@ -819,7 +871,7 @@ def planted_check(tier, seed):
         fails.append({'key': key, 'what': f['what'], 'replay': f['replay']})
     return {
         'name': 'C11.monitor.planted',
-        'bound': f'{len(blocks)} planted content vectors: all of length 1 and 2' + (', all of length 3' if tier == 'thorough' else ', 250 seeded of length 3') +
+        'bound': f'{nblocks} planted content vectors: all of length 1 and 2' + (', all of length 3' if tier == 'thorough' else ', 150 seeded of length 3') +
                  f' over {len(P_SYMS)} cell contents (never written, int, float, negative, text, ="" formula, numeric text, TRUE, FALSE, date, '
                  'number-valued formula incl. one reading a cell far beyond the used range), values drawn from pools of 1-9 per content; each vector '
                  'written as cell constants as a column (with a trailing never-written cell), as a row on another sheet (last cell beyond that '
@@ -830,6 +882,7 @@ def planted_check(tier, seed):
         'exhaustive': tier == 'thorough', 'evaluations': sum(r['evaluations'] for r in res),
         'distinct_nontrivial': sum(r['nontrivial'] for r in res), 'failing_evaluations': sum(r['failing'] for r in res),
         'failures': dedupe(fails), 'samples': [s for r in res[:3] for s in r['samples']][:3], 'seconds': time.time() - t0,
+        'cpu_seconds': sum(r['cpu'] for r in res),
     }
 
 
@@ -858,7 +911,7 @@ def run_items(sheets, items, tmpdir, st, name='sc.xlsx', force_entry=False, step
         key = it['key']
         if it['fn'] == 'COUNT' and judge(spec('COUNT', it['cells'], it.get('scalars', ()), dates_numeric=True), got):
             key = 'C11.COUNT.date'
-        elif isinstance(got, codec.Raised):
+        elif isinstance(got, codec.Raised) and not key.startswith('C11.override'):
             key += '.raises'
         if any(f['key'] == key for f in st['fails']):
             continue
@@ -876,7 +929,7 @@ def run_items(sheets, items, tmpdir, st, name='sc.xlsx', force_entry=False, step
 
 
 def new_stats():
-    return {'evaluations': 0, 'nontrivial': 0, 'fails': [], 'failing': 0, 'samples': []}
+    return {'evaluations': 0, 'nontrivial': 0, 'fails': [], 'failing': 0, 'samples': [], 'cpu': 0.0, 'cpu0': time.process_time()}
 
 
 def merge_stats(res):
@@ -884,6 +937,7 @@ def merge_stats(res):
     for r in res:
         for k in ('evaluations', 'nontrivial', 'failing'):
             out[k] += r[k]
+        out['cpu'] += r['cpu']
         out['fails'] += r['fails']
         out['samples'] += r['samples'][:1]
     return out
@@ -967,14 +1021,18 @@ def _scalar_worker(task):
                                     + f') -> {show(got)}, expected {show_exp(exp)}',
                                     'replay': {'kind': 'book', 'sheets': [{'title': 'S', 'cells': []}], 'formula': list(formulas[k]),
                                                'exp': enc_exp(exp), 'entry': False, 'overrides': [ov]}})
+    st['cpu'] = time.process_time() - st['cpu0']
     return st
 
 
-def scalars_check(tier, seed):
+def scalars_check(tier, seed, pool):
     t0 = time.time()
     fns = [f for f in FNS if f != 'COUNTBLANK']
-    with Pool(len(fns)) as pool:
-        res = pool.map(_scalar_worker, [{'fn': f, 'seed': seed, 'tier': tier} for f in fns])
+    ar = pool.map_async(_scalar_worker, [{'fn': f, 'seed': seed, 'tier': tier} for f in fns], chunksize=1)
+    return lambda: _scalars_finish(tier, ar.get(), t0)
+
+
+def _scalars_finish(tier, res, t0):
     st = merge_stats(res)
     return {
         'name': 'C11.monitor.scalars',
@@ -987,7 +1045,7 @@ def scalars_check(tier, seed):
                 'scalars of numeric aggregates and cells without truth value for AND/OR have no clause and do not occur',
         'exhaustive': False, 'evaluations': st['evaluations'], 'distinct_nontrivial': st['nontrivial'],
         'failing_evaluations': st['failing'], 'failures': dedupe(sorted(st['fails'], key=lambda f: f['key'])),
-        'samples': st['samples'][:3], 'seconds': time.time() - t0,
+        'samples': st['samples'][:3], 'seconds': time.time() - t0, 'cpu_seconds': st['cpu'],
     }
 
 
@@ -1201,6 +1259,11 @@ def sc_override_beyond(seed):
                  ('T!A:A', col(1, 0), f'{name}.other_wholecol'), ('T!A1:A3', col(1, 0, range(3)), f'{name}.other_area'),
                  ('A1:B40', col(0, 0, range(40)) + col(0, 1, range(40)), f'{name}.rect_A1_B40')]
         items = _items_for(forms, 'override', 1, col0=3, fns=['SUM', 'COUNT', 'MAX'])
+        beyond = ov[2] >= 4 or ov[0] == 1          # used range: S rows 1..7 (formulas), T empty
+        for it in items:
+            whole = ':A)' in it['f'][3] and 'A1' not in it['f'][3] or ':B)' in it['f'][3] and 'A1' not in it['f'][3]
+            it['key'] = f'C11.override.{"beyond" if beyond else "inside"}_used_range.{"whole_column" if whole else "bounded_area"}'
+            it['note'] = f'after Executor.set_cells({"ST"[ov[0]]}!{col_letters(ov[1])}{ov[2] + 1}={show(ov[3])});'
         out.append(([{'title': 'S', 'cells': s}, {'title': 'T', 'cells': []}], items, {'steps': [[ov]]}))
     return out
 
@@ -1220,22 +1283,26 @@ def _shape_worker(task):
             if opt.get('force_entry'):
                 items = items[::3]                  # one translation per formula: a third of the formulas
             run_items(sheets, items, d, st, name=f'{name}{i}.xlsx', force_entry=opt.get('force_entry', False), steps=opt.get('steps'))
+    st['cpu'] = time.process_time() - st['cpu0']
     return st
 
 
 SHAPE_TASKS = ['long_column', 'rectangle', 'wide', 'xfd', 'whole_columns', 'arg_counts', 'many_sheets', 'override_beyond']
 
 
-def shapes_check(tier, seed):
+def shapes_check(tier, seed, pool):
     t0 = time.time()
     seeds = [seed] if tier != 'thorough' else [seed, seed + 101, seed + 202, seed + 303]
     tasks = [{'name': n, 'seed': s} for s in seeds for n in SHAPE_TASKS]
-    with Pool(min(NPROC, len(tasks))) as pool:
-        res = pool.map(_shape_worker, tasks)
+    ar = pool.map_async(_shape_worker, tasks, chunksize=1)
+    return lambda: _shapes_finish(ar.get(), len(seeds), t0)
+
+
+def _shapes_finish(res, nseeds, t0):
     st = merge_stats(res)
     return {
         'name': 'C11.monitor.shapes',
-        'bound': f'{len(seeds)} seeded content set(s) x: column A1:A1500 of mixed contents read through 18 areas (1000/1001/999 cells, rows 100/101, '
+        'bound': f'{nseeds} seeded content set(s) x: column A1:A1500 of mixed contents read through 18 areas (1000/1001/999 cells, rows 100/101, '
                  '1000..1024, > used range, whole column, 2- and 4-way splits, twice); 40x30 rectangle (1200 cells) whole / bands / quadrants / '
                  'overlap / blank border; rows and rectangles across the column-letter boundaries Z|AA and ZZ|AAA, a 685-cell row, whole columns '
                  'ZZ:AAA; areas ending in column XFD (whole-file and entry-point translation); whole columns A:A, A:C, several, on two sheets '
@@ -1245,5 +1312,273 @@ def shapes_check(tier, seed):
         'rule': 'one evaluation = one formula value compared with the fold over the planted (or overridden) contents of the cells the '
                 'area text denotes; formulas without clause are not counted',
         'exhaustive': False, 'evaluations': st['evaluations'], 'distinct_nontrivial': st['nontrivial'], 'failing_evaluations': st['failing'],
-        'failures': dedupe(sorted(st['fails'], key=lambda f: (len(f['what']), f['key']))), 'samples': st['samples'][:3], 'seconds': time.time() - t0,
+        'failures': dedupe(sorted(st['fails'], key=lambda f: (len(f['what']), f['key']))), 'samples': st['samples'][:3], 'seconds': time.time() - t0, 'cpu_seconds': st['cpu'],
     }
+
+
+# ------------------------------------------------------------------ re-use of Parser / Executor objects, sequences of overrides
+W_CELLS = [(0, 0, r) for r in range(6)] + [(0, c, 7) for c in range(2, 6)] + [(1, 0, r) for r in range(3)]
+W_FORMS = [('A1:A6', [0, 1, 2, 3, 4, 5], FNS), ('A1:A3,A4:A6', [0, 1, 2, 3, 4, 5], FNS), ('A:A', [0, 1, 2, 3, 4, 5], NUMFNS), ('C8:F8', [6, 7, 8, 9], FNS),
+           ('T!A1:A3', [10, 11, 12], FNS), ('A1:A6,T!A1:A3', [0, 1, 2, 3, 4, 5, 10, 11, 12], FNS), ('A2:A5,C8:F8,A2:A5', [1, 2, 3, 4, 6, 7, 8, 9, 1, 2, 3, 4], FNS),
+           ('T!A:A', [10, 11, 12], NUMFNS)]
+
+
+def walk_book(seed, tmpdir):
+    rng = random.Random(f'{seed}/walkbook')
+    sheets = [{'title': 'S', 'cells': []}, {'title': 'T', 'cells': []}]
+    model = []
+    for (s, c, r) in W_CELLS:
+        content, v = planted_cell(rng.choice('IIFNTEYZBDQQ'), rng)
+        if isinstance(content, str) and 'A1048000' in content:
+            content, v = '=2*3', 6
+        model.append(v)
+        if content is not None:
+            sheets[s]['cells'].append([c + 1, r + 1, content])
+    formulas, items = [], []
+    for i, (args, idx, fns) in enumerate(W_FORMS):
+        for k, fn in enumerate(fns):
+            formulas.append((0, col_letters(7 + k), 1 + i, f'={fn}({args})'))
+            items.append((fn, idx))
+    return Book(sheets, formulas, tmpdir, name='walk.xlsx'), formulas, items, model
+
+
+def run_walk(seed, steps, st, stop_at=None):
+    """returns text of the first failure at step `stop_at` (replay) or None"""
+    from excel2pycl import Cell, Executor
+    rng = random.Random(f'{seed}/walk')
+    with lib.scratch() as d:
+        book, formulas, items, model = walk_book(seed, d)
+        if book.single is None:
+            st['fails'].append({'key': 'C11.reuse.walk.translate', 'what': f'walk workbook does not translate: {book.file_error!r}', 'replay': None})
+            return None
+        ex, cls = book.single
+        initial = list(model)
+        history = []
+        for step in range(steps + 1):
+            if step:
+                n = rng.choice([1, 1, 2, 3, 13])
+                picks = [rng.randrange(len(W_CELLS)) for _ in range(n)] if n < 13 else list(range(13))
+                cells = []
+                for p in picks:
+                    v = pick(rng.choice(SYMS), rng)
+                    if rng.random() < 0.15:                       # the same cell twice in one call: the later entry wins
+                        cells.append(Cell(*W_CELLS[p], pick(rng.choice(SYMS), rng)))
+                    cells.append(Cell(*W_CELLS[p], cls.EmptyCell() if is_blank(v) else v))
+                    model[p] = v
+                history.append([[W_CELLS[p], show(model[p])] for p in picks])
+                ex.set_cells(cells)
+            order = list(range(len(items)))
+            rng.shuffle(order)
+            for k in order:
+                fn, idx = items[k]
+                ment = [model[i] for i in idx]
+                exp = spec(fn, ment)
+                if exp is None:
+                    continue
+                got = book.value(k)
+                st['evaluations'] += 1
+                st['nontrivial'] += 1
+                if judge(exp, got):
+                    continue
+                st['failing'] += 1
+                if fn == 'COUNT' and judge(spec(fn, ment, dates_numeric=True), got):
+                    key = 'C11.COUNT.date'
+                else:
+                    key = f'C11.reuse.override_sequence.{fn}' if step else f'C11.reuse.initial.{fn}'
+                text = (f'{formulas[k][3]} after {step} set_cells calls (last: {history[-1] if history else "none"}) with cells '
+                        f'{[show(x) for x in ment]} -> {show(got)}, expected {show_exp(exp)}')
+                if stop_at is not None and step == stop_at:
+                    return text
+                if not any(f['key'] == key for f in st['fails']):
+                    st['fails'].append({'key': key, 'what': text, 'replay': {'kind': 'walk', 'seed': seed, 'step': step}})
+            if step in (steps // 2, steps):
+                # a second Executor on the same generated class sees the workbook contents, not the overrides of the first
+                fresh = Executor().set_executed_class(class_object=cls)
+                for k, (fn, idx) in enumerate(items):
+                    exp = spec(fn, [initial[i] for i in idx])
+                    if exp is None:
+                        continue
+                    got = lib.call_catch(lambda: fresh.get_cell(Cell(*book.addr[k])).value)
+                    st['evaluations'] += 1
+                    if not judge(exp, got) and not (fn == 'COUNT' and judge(spec(fn, [initial[i] for i in idx], dates_numeric=True), got)):
+                        st['failing'] += 1
+                        text = f'second Executor on the same class: {formulas[k][3]} -> {show(got)}, expected {show_exp(exp)} (overrides of the first leak)'
+                        if stop_at is not None:
+                            return text
+                        if not any(f['key'] == 'C11.reuse.second_executor' for f in st['fails']):
+                            st['fails'].append({'key': 'C11.reuse.second_executor', 'what': text, 'replay': {'kind': 'walk', 'seed': seed, 'step': step}})
+            if stop_at is not None and step >= stop_at:
+                return None
+    return None
+
+
+def run_parser_reuse(seed, st, only=None):
+    """one Parser object: workbook A, then workbook B with the same formula texts; entry cell C1 then C4; back to whole file"""
+    from excel2pycl import Parser, Executor, Cell
+    rng = random.Random(f'{seed}/parser')
+    out = []
+    with lib.scratch() as d:
+        specs = []
+        for name, rows in (('a.xlsx', 4), ('b.xlsx', 6)):
+            cells = gen_contents(rng, rows, 'IIFNTYB')
+            s = []
+            plant(cells, s, [('A', r) for r in range(1, rows + 1)])
+            for k, fn in enumerate(FNS):
+                s.append(['C', k + 1, f'={fn}(A1:A4)'])
+                s.append(['D', k + 1, f'={fn}(A:A)'])
+            path = os.path.join(d, name)
+            lib.write_workbook({'sheets': [{'title': 'S', 'cells': s}]}, path)
+            specs.append((path, [m for _, m in cells]))
+        p = Parser()
+
+        def observe(tag, model, addrs):
+            t = lib.call_catch(p.get_translation)
+            cls = t if isinstance(t, codec.Raised) else lib.call_catch(lib.load_class_from_text, t)
+            for (c, k) in addrs:
+                fn = FNS[k]
+                ment = model[:4] if c == 2 else model
+                if c == 3 and fn not in NUMFNS:
+                    continue
+                exp = spec(fn, ment)
+                if exp is None:
+                    continue
+                got = cls if isinstance(cls, codec.Raised) else lib.call_catch(
+                    lambda: Executor().set_executed_class(class_object=cls).get_cell(Cell(0, c, k)).value)
+                st['evaluations'] += 1
+                st['nontrivial'] += 1
+                if not judge(exp, got):
+                    st['failing'] += 1
+                    text = f'{tag}: ={fn}({"A1:A4" if c == 2 else "A:A"}) over {[show(x) for x in ment]} -> {show(got)}, expected {show_exp(exp)}'
+                    out.append(text)
+                    key = f'C11.reuse.parser.{tag.split(":")[0]}'
+                    if not any(f['key'] == key for f in st['fails']):
+                        st['fails'].append({'key': key, 'what': text, 'replay': {'kind': 'parser', 'seed': seed}})
+        allc = [(c, k) for c in (2, 3) for k in range(8)]
+        p.set_excel_file_path(specs[0][0])
+        observe('first_workbook: Parser, workbook A', specs[0][1], allc)
+        p.set_excel_file_path(specs[1][0])
+        observe('second_workbook: same Parser, then workbook B (same formula texts, other contents, more rows)', specs[1][1], allc)
+        p.set_entrypoint_cell(Cell(0, 2, 0))
+        observe('entry_first: same Parser, entry cell C1', specs[1][1], [(2, 0)])
+        p.set_entrypoint_cell(Cell('S', 'D', '4'))
+        observe('entry_second: same Parser, entry cell changed to D4', specs[1][1], [(3, 3)])
+        p.set_excel_file_path(specs[0][0])
+        observe('entry_other_workbook: same Parser, entry D4, back to workbook A', specs[0][1], [(3, 3)])
+        q = Parser().set_excel_file_path(specs[1][0])
+        p = q
+        observe('fresh: fresh Parser, workbook B', specs[1][1], allc)
+    return out
+
+
+def _reuse_worker(task):
+    st = new_stats()
+    if task['what'] == 'walk':
+        run_walk(task['seed'], task['steps'], st)
+    else:
+        run_parser_reuse(task['seed'], st)
+    st['cpu'] = time.process_time() - st['cpu0']
+    return st
+
+
+def reuse_check(tier, seed, pool):
+    t0 = time.time()
+    walks, steps = (24, 120) if tier == 'thorough' else (8, 60)
+    tasks = [{'what': 'walk', 'seed': seed * 100 + i, 'steps': steps} for i in range(walks)]
+    tasks += [{'what': 'parser', 'seed': seed * 100 + i} for i in range(walks // 2)]
+    ar = pool.map_async(_reuse_worker, tasks, chunksize=1)
+    return lambda: _reuse_finish(ar.get(), walks, steps, t0)
+
+
+def _reuse_finish(res, walks, steps, t0):
+    st = merge_stats(res)
+    return {
+        'name': 'C11.monitor.reuse',
+        'bound': f'{walks} seeded workbooks (13 cells on two sheets holding constants, never written cells and formula cells; 8 argument lists x '
+                 f'8 functions) x {steps} consecutive Executor.set_cells calls on ONE Executor (1, 2, 3 or all 13 cells per call, any of 10 '
+                 'contents incl. back to blank, the same cell twice in a call) with all formulas read in random order after every call, plus a '
+                 f'second Executor on the same class; {walks // 2} x one Parser object used for workbook A, workbook B (same formula texts), entry '
+                 'cell C1, entry cell D4, back to workbook A',
+        'rule': 'one evaluation = one formula value compared with the fold over the current contents (most recent override wins, '
+                'cells never overridden keep the workbook content); formulas without clause are not counted',
+        'exhaustive': False, 'evaluations': st['evaluations'], 'distinct_nontrivial': st['nontrivial'], 'failing_evaluations': st['failing'],
+        'failures': dedupe(sorted(st['fails'], key=lambda f: ((f.get('replay') or {}).get('step', 0), f['key']))),
+        'samples': [{'walk': 'seed 0', 'steps': steps}], 'seconds': time.time() - t0, 'cpu_seconds': st['cpu'],
+    }
+
+
+# ------------------------------------------------------------------ entry points
+def run(tier='quick', seed=0):
+    checks = []
+    with Pool(NPROC) as pool:
+        # all checks share one pool: the long tasks (shapes, planted, grid) are queued first
+        order = [shapes_check, planted_check, scalars_check, reuse_check, helper_check]
+        pending = {fn: fn(tier, seed, pool) for fn in order[:2]}
+        grid = grid_sweep(tier, seed, pool)
+        pending.update({fn: fn(tier, seed, pool) for fn in order[2:]})
+        merged, nvec, npass, grid_seconds, grid_cpu = grid()
+        done = {fn: pending[fn]() for fn in order}
+    nform = {c: sum(1 for f in grid_formulas() if grid_category(f[4], G_FORMS[f[5]][5]) == c) for c in merged}
+    passes = 'canonical value per content + 1 seeded pass over every 8th vector' if tier != 'thorough' else 'canonical value per content + 3 seeded passes'
+    total = max(1, sum(x['evaluations'] for x in merged.values()))
+    which = 'all 10^4' if tier == 'thorough' else f'{nvec} of the 10^4 (every vector with <= 3 non-blank cells, every vector of numbers/booleans, a seeded eighth of the other fully populated ones)'
+    scope = (f'{which} content vectors of length 4 (never-overridden state first) and {len(EXPLICIT)} value vectors aimed at number representation (2^53 neighbours as int and float, 1/1.0/TRUE, signed zero) over {{blank, int, float, negative, text, empty text, numeric '
+             f'text, TRUE, FALSE, date}} ({passes}; value pools of 1-9 per content) placed by Executor.set_cells as a column, a row, a 2x2 '
+             'rectangle, a column on another sheet and a rectangle on a sheet with a quoted title, read by ')
+    texts = {
+        'fold': ('C11.monitor.fold', 'SUM/AVERAGE/MIN/MAX/COUNT over 11 area forms (column, row, rectangle, other sheet, quoted sheet, whole '
+                 'column, whole column of another sheet, inner part, $-absolute, mixed absolute, four single cells)'),
+        'countblank': ('C11.monitor.countblank', 'COUNTBLANK over 9 area forms (whole columns excluded: their number of blank cells is not bounded)'),
+        'andor': ('C11.monitor.andor', 'AND/OR over 9 area forms; only vectors of booleans and numbers have a clause'),
+        'split': ('C11.monitor.split', '15 argument lists that cut the same cells into areas differently (2+2, 1+3, 3+1, rectangle by rows / by columns, '
+                  'same area twice, overlapping areas, three shapes, two sheets) for all 8 functions and F(X)+F(Y) against F(X,Y) for SUM/COUNT/COUNTBLANK'),
+        'sheets': ('C11.monitor.sheets', 'formulas with the SAME unqualified area text on three sheets (A2:A5 on S and T hold different vectors, '
+                   'C8:F8 and C10:D11 exist on S only) and cross-sheet references in both directions'),
+    }
+    for c in ('fold', 'countblank', 'andor', 'split', 'sheets'):
+        m = merged[c]
+        checks.append({
+            'name': texts[c][0], 'bound': scope + texts[c][1] + f' = {nform[c]} formulas of one workbook',
+            'rule': 'one evaluation = value of one formula under one content vector compared with the fold of the statement over the cells '
+                    'mentioned (once per mention); AVERAGE/MIN/MAX without numeric cell and AND/OR over cells without truth value (text, blank, '
+                    'date) have no clause and are not counted; non-trivial = at least one non-blank cell; a failing vector is shrunk by '
+                    'blanking cells and keyed by function + contents of the minimal vector (+ form when the plain column form passes)',
+            'exhaustive': True, 'evaluations': m['evaluations'], 'distinct_nontrivial': m['nontrivial'], 'failing_evaluations': m['failing'],
+            'failures': m['fails'], 'samples': m['samples'], 'seconds': grid_seconds * m['evaluations'] / total,
+            'cpu_seconds': grid_cpu * m['evaluations'] / total,
+        })
+    for fn in (planted_check, scalars_check, shapes_check, reuse_check, helper_check):
+        checks.append(done[fn])
+    return {'checks': checks}
+
+
+def run_one(name, tier='quick', seed=0):
+    """one check on its own (development aid): name in fold|planted|scalars|shapes|reuse|helpers"""
+    fn = {'planted': planted_check, 'scalars': scalars_check, 'shapes': shapes_check, 'reuse': reuse_check, 'helpers': helper_check,
+          'fold': grid_sweep}[name]
+    with Pool(NPROC) as pool:
+        return fn(tier, seed, pool)()
+
+
+def replay(payload):
+    if not payload:
+        return {'fails': False, 'text': 'nothing to replay'}
+    k = payload.get('kind')
+    if k == 'grid':
+        return replay_grid(payload)
+    if k == 'gridtranslate':
+        with lib.scratch() as d:
+            book, _ = grid_book(d)
+            return {'fails': book.file_error is not None, 'text': f'grid workbook translation: {book.file_error!r}'}
+    if k == 'book':
+        return replay_book(payload)
+    if k in ('helper', 'helper_long'):
+        return replay_helper(payload)
+    if k == 'walk':
+        st = new_stats()
+        text = run_walk(payload['seed'], payload['step'], st, stop_at=payload['step'])
+        return {'fails': text is not None, 'text': text or f'walk {payload["seed"]} agrees with the fold up to step {payload["step"]}'}
+    if k == 'parser':
+        st = new_stats()
+        out = run_parser_reuse(payload['seed'], st)
+        return {'fails': bool(out), 'text': '; '.join(out[:3]) or 'Parser re-use agrees with the fold'}
+    return {'fails': False, 'text': 'nothing to replay'}
